@@ -7,10 +7,10 @@ BOUNDS = {"predicates": "fully symbolic mapping (start k<<12, size, offset, perm
 OUTSIDE = ["'the module containing the entry point is first': the swap is inline in enumerate_mappings after File::open + MemoryMaps::from_read on /proc/<pid>/maps and cannot be reached without I/O - not decided",
            "agreement of the build id with an independent ELF reader on real files (extraction is C14; here the readers are scripted)", "merged extents (C13)", "deleted binaries, names with spaces / non-ASCII"]
 ASSUMPTIONS = ["<BuildId as ReadFromModule>::read_from_module and <SoName as ...>::read_from_module replaced by scripted readers (error / symbolic 8-byte id / all-zero id; SONAME or none)",
-               "std::path::Path::exists stubbed true; std::fs::File::open stubbed (asserts the path is not under /dev, returns NotFound)", "std::fmt::format stubbed"]
+               "in the mappings::write harnesses the private fill_raw_module is replaced by a logger (its own behaviour is the c08_raw_module_* harnesses, thorough tier)", "std::path::Path::exists stubbed true; std::fs::File::open stubbed (asserts the path is not under /dev, returns NotFound)", "std::fmt::format stubbed"]
 def M(n, d, tier="quick", **kw): return H("c08_modules::" + n, desc=d, tier=tier, loops={"extend_with": 60}, timeout=1500, **kw)
 HARNESSES = [
     M("c08_is_interesting", "is_interesting predicate"), M("c08_is_contained_in", "is_contained_in predicate"),
-    M("c08_raw_module_replace_basename", "module record, basename replaced by SONAME"), M("c08_raw_module_append_soname", "module record, SONAME appended"),
+    M("c08_raw_module_replace_basename", "module record, basename replaced by SONAME (string handling: > 15 min)", "thorough", est_gb=10, mem_gb=30), M("c08_raw_module_append_soname", "module record, SONAME appended", "thorough", est_gb=10, mem_gb=30),
     M("c08_write_list", "module list: listed / skipped / caller-supplied", est_gb=8), M("c08_write_suppressed", "target mapping inside a caller mapping is suppressed", est_gb=8),
 ]
